@@ -122,3 +122,18 @@ func init() {
 		},
 	}
 }
+
+func init() {
+	properties["C03"] = Property{
+		Level: "exploration",
+		Rule: "cases = (generated program incl. //garble:controlflow functions with drawn directive parameters, configuration from {default, -literals, -tiny, -seed, combinations, controlflow on}, 2-3 build circumstances each drawn from cache state {module-cold private copy, partially filled, fully warm} x -p {1,2,4,16} x source directory (different lengths) x TMPDIR x idle delay); oracle = equal sha256 of all outputs; on a mismatch both are rebuilt with -debugdir and the first differing garbled file is reported. Non-trivial = at least two of the builds really recompiled the module's packages; distinct = (feature set, configuration class, circumstance tuple).",
+		Assumptions: append([]string{
+			"every build of a case uses the same garble binary, flags, seed, GOGARBLE, toolchain and target",
+			"the clock is varied only by letting time pass; scheduling is varied through -p and machine load, not controlled",
+		}, commonAssumptions...),
+		ReplayUnit: "TestC03Replay",
+		Units: []Unit{
+			{Name: "TestC03", Kind: "e2e", Checks: [2]int{5, 40}, Workers: [2]int{3, 8}},
+		},
+	}
+}
